@@ -67,10 +67,11 @@ func (a *vclock) join(b *vclock) {
 // configuration and results
 
 type Decision struct {
-	T      int    `json:"t"`           // task that was running
-	L      uint64 `json:"l"`           // its local point counter
-	To     int    `json:"to"`          // task chosen
-	Forced bool   `json:"f,omitempty"` // current task could not continue
+	T      int    `json:"t"`             // task that was running
+	L      uint64 `json:"l"`             // its local point counter
+	To     int    `json:"to"`            // task chosen
+	Forced bool   `json:"f,omitempty"`   // current task could not continue
+	Sel    bool   `json:"sel,omitempty"` // To is the clause chosen by a select with several ready clauses
 }
 
 type Faults struct {
@@ -135,7 +136,7 @@ type task struct {
 	fn       func()
 	lastSite int32
 	spawned  bool // started by the library through a go statement
-	streak   int // consecutive synchronisation points without any memory access in between (spin detection)
+	streak   int  // consecutive synchronisation points without any memory access in between (spin detection)
 }
 
 type waitable interface{ canProceed(t *task) bool }
@@ -319,6 +320,10 @@ func Run(c Config, fns []func(), abort func(*Result)) *Result {
 	if cfg.Replay {
 		replay = make(map[[2]uint64]Decision, len(cfg.Decisions))
 		for _, d := range cfg.Decisions {
+			if d.Sel {
+				replay[[2]uint64{uint64(d.T) | 1<<40, d.L}] = d
+				continue
+			}
 			replay[[2]uint64{uint64(d.T), d.L}] = d
 		}
 	}
